@@ -16,7 +16,13 @@ inline constexpr struct fma {
     template <typename Float>
     [[nodiscard]] constexpr auto operator()(Float x, Float y, Float z) const noexcept -> Float
     {
-        if (not is_constant_evaluated()) {
+        // GCC evaluates the builtin in constant expressions too; other compilers need the portable fallback there
+#if defined(TETL_COMPILER_GCC)
+        constexpr auto useBuiltin = true;
+#else
+        auto const useBuiltin = not is_constant_evaluated();
+#endif
+        if (useBuiltin) {
 #if __has_builtin(__builtin_fmaf)
             if constexpr (is_same_v<Float, float>) {
                 return __builtin_fmaf(x, y, z);
